@@ -58,3 +58,29 @@ Theorem C01_capstone_check_sound :
     forall tbl ops st, run_ops (impl_scanner tbl cms) st ops = run_ops (spec_scanner tbl sms) st ops.
 Proof. exact capstone_check_sound. Qed.
 Print Assumptions C01_capstone_check_sound.
+
+(* THE RULE, END TO END AND AT THE SOURCE LEVEL (C01, C04, C05 in one statement): see
+   EndToEnd2.built_mode_rule. SCand leaf ps s x i t e = "pattern number i (token type t) matches a
+   non-empty prefix of s ending at byte e in full, its lookahead condition holds on the rest with
+   lookahead length l, and x = e + l". *)
+From Scnr Require Import EndToEnd2.
+Theorem C01_source_rule :
+  forall tbl m cm sm, build_mode m = Some cm -> spec_mode m = Some sm -> mode_valid m -> forall s,
+  match find_mode tbl (aut cm) s with
+  | Panic => False
+  | Ok None => forall x i t e, ~ SCand tbl (sm_pats sm) s x i t e
+  | Ok (Some (t, e)) => exists x i, SCand tbl (sm_pats sm) s x i t e /\
+      forall x' i' t' e', SCand tbl (sm_pats sm) s x' i' t' e' -> x' < x \/ (x' = x /\ i <= i')
+  end.
+Proof. exact built_mode_rule. Qed.
+Print Assumptions C01_source_rule.
+
+Theorem C01_specification_patterns_are_the_source_patterns :
+  forall m sm, spec_mode m = Some sm ->
+  Forall2 (fun p sp => sp_tok sp = s_tok p /\ core_of_ast (s_ast p) = Some (sp_re sp) /\
+             match s_la p with
+             | None => sp_la sp = None
+             | Some (pos, al) => exists rl, core_of_ast al = Some rl /\ sp_la sp = Some (pos, rl)
+             end) (s_pats m) (sm_pats sm).
+Proof. exact spec_mode_patterns. Qed.
+Print Assumptions C01_specification_patterns_are_the_source_patterns.
